@@ -7,6 +7,8 @@ Encodings: byte strings and text travel as hex (text = hex of UTF-8), the empty
 string as `-`; naturals in decimal; lists comma separated (`-` = empty).
 -/
 import BtcHd.Model.Wallet
+import BtcHd.Model.History
+import BtcHd.Model.Cli
 import BtcHd.Prims.Sha
 import BtcHd.Prims.Secp256k1
 
@@ -204,6 +206,43 @@ def pubNodeOf (key : Bytes) (t : Bool) : Bip32.Node :=
   { isPrv := false, key := key, chainCode := List.replicate 32 0, depth := 0,
     index := 0, testnet := t, hasParent := false, parentFp := none, path := [],
     parsedVersion := none }
+
+/-! ### histories (C13) -/
+
+def unkind (s : String) : Option History.AddrKind :=
+  match s with
+  | "p2pkh" => some .p2pkh
+  | "p2wpkh" => some .p2wpkh
+  | "p2sh_p2wpkh" => some .p2shP2wpkh
+  | "p2wsh" => some .p2wsh
+  | "p2sh_p2wsh" => some .p2shP2wsh
+  | _ => none
+
+def unop (s : String) : Option History.Op :=
+  match s.splitOn ":" with
+  | ["bp", p] => (unstr p).map .byPath
+  | ["ckd", h, i] => do pure (.ckd (← unnat h) (← unnat i))
+  | ["gc", h, a, b] => do pure (.genChildren (← unnat h) (← unnat a) (← unnat b))
+  | ["dp", h, is] => do pure (.derivePath (← unnat h) (← unlist unnat is))
+  | ["ad", h, k] => do pure (.addr (← unnat h) (← unkind k))
+  | ["xk", h] => do pure (.extKeys (← unnat h))
+  | ["ng", h, k] => do pure (.newGen (← unnat h) (← unkind k))
+  | ["nx", g] => do pure (.next (← unnat g))
+  | ["sd", g, k] => do pure (.send (← unnat g) (← unnat k))
+  | ["b85", app, param, index] => do pure (.bip85 (← unnat app) (← unint param) (← unint index))
+  | ["rep", acct, a, b] => do pure (.report (← unnat acct) (← unnat a) (← unnat b))
+  | ["was"] => some .wasabi
+  | ["root"] => some .rootKey
+  | _ => none
+
+def outS : History.Out → String
+  | .err => "err"
+  | .node n => nodeS n
+  | .nodes ns => "L " ++ " / ".intercalate (ns.map nodeS)
+  | .text s => "t" ++ strS s
+  | .pair a b => "p" ++ strS a ++ " " ++ strS b
+  | .json j => jsonS j
+  | .handle g => "g" ++ toString g
 
 /-! ### the operations -/
 
@@ -406,6 +445,26 @@ def step (line : String) : String :=
         | "hex" => Bip85.hex P w.master param index
         | "pwd" => Bip85.pwd P w.master param index
         | _ => none))
+  | ["hist", w, ops] => orBad do
+      let (P, w) ← unwallet w
+      let ops ← (ops.splitOn ";").mapM unop
+      match w with
+      | none => pure "err"
+      | some w => pure (okS (" ; ".intercalate ((History.run P (History.init w) ops).2.map outS)))
+  | ["cli", fs, osb, argv] => orBad do
+      let fs ← match fs with
+        | "absent" => some Cli.FsClass.absent
+        | "file" => some Cli.FsClass.file
+        | "dir" => some Cli.FsClass.dir
+        | "noparent" => some Cli.FsClass.noParent
+        | _ => none
+      let ob ← unhex osb
+      let argv ← if argv = "=" then some [] else (argv.splitOn ",").mapM unstr
+      pure (match Cli.run P0 (fun k => ob.take k) fs argv with
+        | .reject => "ok reject"
+        | .help => "ok help"
+        | .emit .stdout j => "ok emit stdout " ++ jsonS j
+        | .emit .file j => "ok emit file " ++ jsonS j)
   | _ => bad
 
 partial def loop (h : IO.FS.Stream) (out : IO.FS.Stream) : IO Unit := do
